@@ -100,7 +100,7 @@ func c01Tree(cs int64, forceCustom int) (*Tree, bool) {
 		}
 		src := Obj{"kind": "ConfigMap", "name": "failsrc", "fieldPath": "data.v"}
 		sel := Obj{"kind": "ConfigMap", "name": "failtgt"}
-		switch r.Intn(14) {
+		switch r.Intn(15) {
 		case 0:
 			repl(src, Obj{"select": sel, "fieldPaths": []interface{}{"data.nothere"}})
 		case 1:
@@ -129,9 +129,14 @@ func c01Tree(cs int64, forceCustom int) (*Tree, bool) {
 		case 11:
 			L.ResF = append(L.ResF, "dup.yaml")
 			L.Docs["dup.yaml"] = []Obj{cmTgt, cmTgt}
-		case 12:
+		case 12, 14:
+			// several vars fail at once: WHICH one the error names must not vary
 			addPair()
-			L.Kust["vars"] = []interface{}{Obj{"name": "V", "objref": Obj{"kind": "ConfigMap", "name": "failsrc", "apiVersion": "v1"}, "fieldref": Obj{"fieldpath": "data.nothere"}}}
+			var vs []interface{}
+			for _, n := range []string{"V_ONE", "A_TWO", "M_THREE", "Z_FOUR"}[:1+r.Intn(4)] {
+				vs = append(vs, Obj{"name": n, "objref": Obj{"kind": "ConfigMap", "name": pickS(r, []string{"failsrc", "failtgt"}), "apiVersion": "v1"}, "fieldref": Obj{"fieldpath": "data.nothere" + n}})
+			}
+			L.Kust["vars"] = vs
 		default:
 			L.Kust["configMapGenerator"] = []interface{}{Obj{"name": "badgen", "literals": []interface{}{"noequals"}, "files": []interface{}{"nofile.txt"}}}
 		}
